@@ -336,4 +336,75 @@ theorem step_embed_inv {w : World} (hI : Grid.Inv w) (s : GridSpec) (host sub : 
     (by rw [hcn, hcv1]; exact (hI2.bd_sound _ _ hsub).1)
   rw [e5]; exact hI5
 
+/-- **inv_step for embed with a standalone host block** -/
+theorem step_embedStandalone_inv {w : World} (hI : Grid.Inv w) (s : GridSpec) (host sub : Name) (p : ConPay) (hostvol : Rat)
+    (hpre : pre w (.embedStandalone s host sub p hostvol) = true) :
+    Grid.Inv (step w (.embedStandalone s host sub p hostvol)).w := by
+  simp only [pre, Bool.and_eq_true, Option.isSome_iff_exists] at hpre
+  obtain ⟨⟨⟨⟨_, hall⟩, ⟨x0, hhost⟩⟩, ⟨sb, hsub⟩⟩, hrocks⟩ := hpre
+  obtain ⟨hI1, hI2, hg, hF, oR, oB, oC⟩ := buildSpec_spec hI s hall
+  simp only [step]
+  generalize (buildSpec w s).1 = w1 at *
+  generalize (buildSpec w s).2 = other at *
+  have hbl : w1.blocklist = w.blocklist := congrArg Grid.blocklist hg
+  have hrl : w1.rocktypelist = w.rocktypelist := congrArg Grid.rocktypelist hg
+  have hcl : w1.connectionlist = w.connectionlist := congrArg Grid.connectionlist hg
+  have hbd : w1.block = w.block := congrArg Grid.block hg
+  simp only [hsub]
+  generalize hrv : ({ name := ['d','f','a','l','t'], tag := 0 } : Rock) = rv
+  generalize hbv : ({ name := host, volume := hostvol, rock := (w1.newRock rv).1, centre := none, conn := [] } : Blk) = bv
+  have hbvn : bv.name = host := by rw [← hbv]
+  generalize hcv : mkCon ((w1.newRock rv).2.newBlk bv).1 sb p = cv
+  have hcv0 : cv.b0 = w1.blks.length := by rw [← hcv]; rfl
+  have hcv1 : cv.b1 = sb := by rw [← hcv]; rfl
+  -- the three construction steps, seen from both grids
+  generalize hw5 : (((w1.newRock rv).2.newBlk bv).2.newCon cv).2 = w5
+  have hI5 : Grid.Inv w5 := by rw [← hw5]; exact newCon_inv (newBlk_inv (newRock_inv hI1 rv) bv) cv
+  have hI5' : Grid.Inv (w5.withGrid other) := by
+    have : w5.withGrid other = ((((w1.withGrid other).newRock rv).2.newBlk bv).2.newCon cv).2 := by rw [← hw5]; rfl
+    rw [this]; exact newCon_inv (newBlk_inv (newRock_inv hI2 rv) bv) cv
+  have g_rl : w5.rocktypelist = w1.rocktypelist := by rw [← hw5]; rfl
+  have g_bl : w5.blocklist = w1.blocklist := by rw [← hw5]; rfl
+  have g_cl : w5.connectionlist = w1.connectionlist := by rw [← hw5]; rfl
+  have g_bd : w5.block = w1.block := by rw [← hw5]; rfl
+  have g_cons : w5.cons = w1.cons ++ [cv] := by rw [← hw5]; rfl
+  have g_blks : w5.blks = w1.blks ++ [bv] := by rw [← hw5]; rfl
+  have g_rocks : w5.rocks = w1.rocks ++ [rv] := by rw [← hw5]; rfl
+  have g_cn : w5.cn w1.cons.length = cv := by
+    simp only [World.cn, g_cons]; rw [getD_append_one]; simp
+  have g_bk_old : ∀ x, x < w1.blks.length → w5.bk x = w1.bk x := by
+    intro x hx; simp only [World.bk, g_blks]; rw [getD_append_one]; simp [hx]
+  have g_bk_new : w5.bk w1.blks.length = bv := by
+    simp only [World.bk, g_blks]; rw [getD_append_one]; simp
+  have g_rk_old : ∀ x, x < w1.rocks.length → w5.rk x = w1.rk x := by
+    intro x hx; simp only [World.rk, g_rocks]; rw [getD_append_one]; simp [hx]
+  have hnR : ∀ x ∈ w5.rocktypelist, ∀ y ∈ other.rocktypelist, w5.rname x = w5.rname y → ∀ b ∈ w5.blocklist, (w5.bk b).rock ≠ x := by
+    simp only [List.all_eq_true, Bool.or_eq_true, bne_iff_ne, ne_eq, Bool.not_eq_true'] at hrocks
+    intro x hx y hy e b hb
+    rw [g_rl] at hx; rw [g_bl] at hb
+    have ex : w5.rname x = w1.rname x := by simp only [World.rname, g_rk_old x (hI1.rl_lt x hx)]
+    have ey : w5.rname y = w1.rname y := by simp only [World.rname, g_rk_old y (hI2.rl_lt y hy)]
+    rw [ex, ey] at e
+    rw [g_bk_old b (hI1.bl_lt b hb)]
+    rcases hrocks x hx y hy with h' | h'
+    · exact absurd e h'
+    · exact rockUsedIn_false h' b hb
+  have hsb' := hI2.bd_sound _ _ hsub
+  have hx0 : dget w5.block (w5.bname (w5.cn w1.cons.length).b0) = some x0 := by
+    rw [g_cn, hcv0]
+    simp only [World.bname, g_bk_new, hbvn, g_bd, hbd]; exact hhost
+  have hx1 : dget other.block (w5.bname (w5.cn w1.cons.length).b1) = some sb := by
+    rw [g_cn, hcv1]
+    have : w5.bname sb = sub := by
+      simp only [World.bname, g_bk_old sb (hI2.bl_lt sb hsb'.1)]; exact hsb'.2
+    rw [this]; exact hsub
+  obtain ⟨w6, fl, e6, hI6, _, _⟩ := embed_inv' (w := w5) (sub := other) (c := w1.cons.length) hI5 hI5'
+    (fun x hx => oR x (hrl ▸ g_rl ▸ hx)) (fun x hx => oB x (hbl ▸ g_bl ▸ hx)) (fun x hx => oC x (hcl ▸ g_cl ▸ hx))
+    hnR (by rw [g_cons]; simp)
+    (fun h => Nat.lt_irrefl _ (hI1.cl_lt _ (g_cl ▸ h)))
+    (fun h => Nat.lt_irrefl _ (hI2.cl_lt _ h))
+    hx0 hx1
+  have hstep : (((w1.newRock rv).2.newBlk bv).2.newCon cv).1 = w1.cons.length := rfl
+  rw [hstep, e6]; exact hI6
+
 end Proofs.Grid
